@@ -35,7 +35,7 @@ ASSUMPTIONS = [
     'Sample(N): at most N rows, strictly increasing source frames, first row is frame 0 (which frames a sample picks is C15)',
     'channel names are matched exactly as the format stores them (BIT/LIS mnemonics are 4 characters, blank padded)',
 ]
-PROBES = ['path_held_other_bytes_before', 'long_log_gt16384_rows', 'negative_step', 'x_not_resolved_by_format', 'empty_selection_skipped', 'step_not_dividing', 'sample_lt_frames', 'channel_subset', 'subset_unknown_name', 'multi_valued_reduced', 'value_wider_than_field', 'several_log_passes',
+PROBES = ['non_fixed_point_format', 'path_held_other_bytes_before', 'long_log_gt16384_rows', 'negative_step', 'x_not_resolved_by_format', 'empty_selection_skipped', 'step_not_dividing', 'sample_lt_frames', 'channel_subset', 'subset_unknown_name', 'multi_valued_reduced', 'value_wider_than_field', 'several_log_passes',
           'indirect_x', 'conv_bit', 'conv_rp66v1', 'conv_lis', 'single_frame_selected', 'subset_includes_x']
 CONVERTERS_ENABLED = ['bit', 'rp66v1', 'lis']
 
@@ -75,7 +75,7 @@ def generate(seed, tier):
     else:
         chans = sorted(set(rng.sample(names, rng.randrange(1, min(4, len(names)) + 1)) + (['NOPE'] if rng.chance(0.25) else [])))
     cfg = {'slice': sl, 'channels': chans, 'reduce': rng.pick(['first', 'first', 'mean', 'median', 'min', 'max']),
-           'width': rng.pick([16, 16, 12, 8, 20]), 'fmt': rng.pick(['.3f', '.3f', '.1f', '.6f', '.0f'])}
+           'width': rng.pick([16, 16, 12, 8, 20]), 'fmt': rng.pick(['.3f', '.3f', '.1f', '.6f', '.0f', '.3f', '.3e', '.6g', '.4', '.2E'])}
     ext = rng.pick(batch.EXT[world])
     return {'world': 'convert', 'converter': conv, 'recurse': False, 'config': cfg, 'files': [{'path': rng.pick(['f', 'f', 'well.v2', 'a_b', '.f', 'x y']) + ext, 'gen': gen}],
             'runs': [dict({'mode': 'alone', 'clock': {'base': 0.0}},
@@ -126,8 +126,19 @@ def parse_las(text: bytes):
     return {'well': well, 'names': names, 'rows': rows, 'a_line': a_line, 'a_comment': comment_after_a}
 
 
-def decimals(fmt):
-    return int(fmt[1:-1])
+def decimals(fmt, ev=0.0):
+    """The decimal place of the last digit a correct writer prints for the value ev under the format: for fixed point formats
+    the number after the dot; for the exponent / general / bare forms ('.3e', '.6g', '.4') it depends on the value, and is read
+    off Python's own rendering of ev (trailing zeros that 'g' removes make the tolerance looser than necessary, never tighter)."""
+    if fmt[-1] in 'fF':
+        return int(fmt[1:-1])
+    try:
+        m = re.match(r'^[-+]?(\d+)(?:\.(\d*))?(?:[eE]([-+]?\d+))?$', format(float(ev), fmt))
+    except (ValueError, OverflowError):
+        m = None
+    if not m:
+        return 0
+    return len(m.group(2) or '') - int(m.group(3) or 0)
 
 
 def select_rows(sl, n):
@@ -246,7 +257,9 @@ def _execute(scenario, res, br):
             res.violation('las-files', f'LAS files written {sorted(tree)}, one per log pass would be {want_paths}', written=len(tree), expected=len(want_paths), **facts0)
         if result['las_count'] != len(tree):
             res.violation('las-count', f'result las_count {result["las_count"]}, files written {len(tree)}', **facts0)
-    d = decimals(cfg['fmt'])
+    fmt_ = cfg['fmt']
+    if fmt_[-1] not in 'fF':
+        res.probe('non_fixed_point_format')
     for p in passes:
         n = p['frames']
         rows, kind = select_rows(cfg['slice'], n)
@@ -310,7 +323,7 @@ def _execute(scenario, res, br):
                 relaxed_ok, strict_bad = True, 0
                 for ci, c in enumerate(want_cols):
                     ev = float(reduce_vals(c['vals'][k], p['reduce']))
-                    t = tol(d if c['kind'] == 'float' else 0, ev, c['acc'])
+                    t = tol(decimals(fmt_, ev) if c['kind'] == 'float' else 0, ev, c['acc'])
                     e = abs(rw[ci] - ev)
                     if e > t + 1.5e-7 * abs(ev):
                         relaxed_ok = False
@@ -363,7 +376,7 @@ def _execute(scenario, res, br):
                 if arr.size > 1 and p['reduce'] != 'first':
                     res.probe('multi_valued_reduced')
                 ev = float(reduce_vals(arr, p['reduce']))
-                dd = d if c['kind'] == 'float' else 0
+                dd = decimals(fmt_, ev) if c['kind'] == 'float' else 0
                 if abs(mat[ri][ci] - ev) > tol(dd, ev, c['acc']):
                     alt = ev * (16777216.0 / 16777215.0)
                     res.violation('value', f'{p["out"]}: row {ri} (frame {k}) column {c["name"]!r}: printed {got_rows[ri][ci].decode()}, source value {ev!r} '
@@ -380,10 +393,9 @@ def _execute(scenario, res, br):
         last_candidates = [rows[-1]]
         if kind == 'sample' and len(rows) > 1:
             last_candidates = [k for k in range(rows[-2] + 1, n)
-                               if all(abs(mat[-1][ci] - float(reduce_vals(c['vals'][k], p['reduce']))) <= tol(d if c['kind'] == 'float' else 0, float(reduce_vals(c['vals'][k], p['reduce'])), c['acc'])
+                               if all(abs(mat[-1][ci] - float(reduce_vals(c['vals'][k], p['reduce']))) <= tol(decimals(fmt_, float(reduce_vals(c['vals'][k], p['reduce']))) if c['kind'] == 'float' else 0, float(reduce_vals(c['vals'][k], p['reduce'])), c['acc'])
                                       + 1.5e-7 * abs(float(reduce_vals(c['vals'][k], p['reduce']))) for ci, c in enumerate(want_cols))] or [rows[-1]]
         w = las['well']
-        xd = d if conv == 'lis' else 9
         verdicts = []
         for kl in last_candidates:
             x_last = float(reduce_vals(want_cols[xcol]['vals'][kl], p['reduce']))
@@ -402,7 +414,8 @@ def _execute(scenario, res, br):
                 scale = units_scale(conv, info, p, w[key][0])
                 if scale is None:
                     continue
-                if abs(gv - exp * scale) > max(0.5 * 10 ** -xd, 1e-6 * abs(exp * scale)) + 1e-9:
+                xd = decimals(fmt_, exp * scale) if conv == 'lis' else 9
+                if abs(gv - exp * scale) > max(0.5 * 10.0 ** -xd, 1e-6 * abs(exp * scale)) + 1e-9:
                     bad.append(('well-value', key, f'{p["out"]}: {key} = {gv!r}, the rows written give {exp * scale!r} (first X {xs[0]!r}, last X {x_last!r}, {len(xs)} rows, '
                                 f'selection {cfg["slice"]} of {n} frames)'))
             verdicts.append(bad)
@@ -428,7 +441,7 @@ def units_scale(conv, info, p, units):
 
 
 def tol(d, ev, acc):
-    return 0.5 * 10 ** -d * (1 + 1e-9) + abs(ev) * 2.3e-16 * (4 + 2 * acc)
+    return 0.5 * 10.0 ** -d * (1 + 1e-9) + abs(ev) * 2.3e-16 * (4 + 2 * acc)
 
 
 def candidates(scenario):
